@@ -22,7 +22,7 @@ def scenarios(tier):
                     for raise_at in range(0, k + 2):
                         for disc in (NODISC, 0, 1, 2, 3, 4, 6):
                             for send_cost in (0, 1):
-                                if send_cost and (disc not in (NODISC, 2) or raise_at):
+                                if send_cost and (disc not in (NODISC, 0, 1, 2) or raise_at):
                                     continue
                                 if tier == "quick" and k == 2 and end_gap == 2 and disc in (4, 6) and raise_at:
                                     continue
@@ -71,6 +71,19 @@ async def play(c):
         finally:
             events.append({"e": "closed", "i": 0, "t": now(), "x": ""})
 
+    class UserIterable:
+        """what the application hands to the response: iterating gives the generator, aclose() is observable"""
+
+        def __init__(self):
+            self.g = producer()
+
+        def __aiter__(self):
+            return self.g
+
+        async def aclose(self):
+            events.append({"e": "release", "i": 0, "t": now(), "x": ""})
+            await self.g.aclose()
+
     first = [True]
     returned = [False]
 
@@ -104,9 +117,9 @@ async def play(c):
             await asyncio.sleep(c["sendCost"])
 
     if c["kind"] == "sse":
-        app = A.SendEventResponse(producer(), ping_interval=c["ping"])
+        app = A.SendEventResponse(UserIterable(), ping_interval=c["ping"])
     else:
-        app = A.StreamResponse(producer())
+        app = A.StreamResponse(UserIterable())
     scope = {"type": "http", "method": "GET", "path": "/", "headers": []}
     exc = ""
     try:
@@ -140,7 +153,7 @@ def run_asgi(ctx, wd):
     ctx.add_tlc("StreamAsgi", res, {"scenarios": len(small), "MaxT": 6})
     if res.violated:
         raise common.MachineryError("StreamAsgi.tla: " + tlc.describe(res))
-    tlc.check_coverage(res, ["Begin", "Yield", "Body", "Ping", "Disc", "Final", "Closed", "Return"])
+    tlc.check_coverage(res, ["Begin", "Yield", "Body", "Ping", "Disc", "Final", "Closed", "Release", "Return"])
 
     traces = []
     for c in sc:
@@ -168,7 +181,7 @@ def run_asgi(ctx, wd):
             elif ev["x"] == "" and t["c"]["raiseAt"]:
                 what = "the producer's exception was swallowed"
         elif ev and ev["e"] == "settled":
-            what = "after the call returned: %d task(s) still pending or generator cleanup count wrong" % ev["i"]
+            what = "after the call returned: %d task(s) still pending, generator cleanup count wrong, or the user's iterable was never closed" % ev["i"]
         elif ev and ev["e"] == "closed":
             what = "the user's generator was cleaned up more than once"
         elif ev and ev["e"] == "body":
